@@ -712,15 +712,16 @@ def idx_r12(ctx):
         b = ctx.ibody(ds[0])
         got = None
         ok = False
-        maps = [s_ for s_ in mir.subterms(b.return_term()) if s_[0] == "call" and s_[1].endswith("Iterator::map") and s_[2][1][0] == "agg"]
+        maps = [s_ for s_ in mir.subterms(b.return_term()) if s_[0] == "call" and s_[1].endswith("Iterator::map") and s_[2][1][0] in ("agg", "fnitem")]
         if len(maps) == 1 and render(common.strip_iter(maps[0][2][0])) == src:
-            cb, _ = mir.closure_body(ctx.facts, maps[0][2][1])
-            rt = cb.return_term()
+            rt = common.callable_return(ctx, maps[0][2][1]) or ("const", "?", "")
             if rt[0] == "agg" and len(rt[3]) == 2:
                 key = common.resolve_calls(ctx, rt[3][0], lambda c: mir._strip_generics(c).rsplit("::", 1)[-1] in ("new", "from"))
                 # (`Into::into` of a value that already has the key's type is the identity conversion)
                 got = (re.sub(r"Into::into\(([^()]*)\)", r"\1", render(key)), render(rt[3][1])[:80])
-                ok = got[0] in keys and got[1].startswith(state_prefix)
+                # (a derived constructor reads as the struct literal it builds)
+                alt = state_prefix.replace("InstrumentState::new($1.key, ", "InstrumentState::InstrumentState{key: $1.key, ")
+                ok = got[0] in keys and got[1].startswith((state_prefix, alt))
         else:
             # loop form: one complete loop over the same source with one unconditional insert(table, key, state)
             vs = [v for v in common.elementwise_views(ctx, ds[0]) if v["kind"] == "loop" and v["complete"] and v["source"] == src]
@@ -728,7 +729,9 @@ def idx_r12(ctx):
                 ins = [c for c in vs[0]["calls"] if c[0].startswith("IndexMap::insert(") and c[1] == "true"]
                 got = [c[0][:200] for c in ins]
                 keys_x = [k.replace("$1", "$x") for k in keys] + ["ExchangeAsset::new($x.value.exchange, $x.value.asset.name_internal)"]
-                ok = len(ins) == 1 and any((", %s, %s" % (k, state_prefix.replace("$1", "$x"))) in ins[0][0] for k in keys_x)
+                sp_x = state_prefix.replace("$1", "$x")
+                ok = len(ins) == 1 and any((", %s, %s" % (k, p_)) in ins[0][0] for k in keys_x
+                                           for p_ in (sp_x, sp_x.replace("InstrumentState::new($x.key, ", "InstrumentState::InstrumentState{key: $x.key, ")))
         n += 1 if ok else 0
         ctx.check(mir.short(p), ok, "each entry is keyed by the indexed entity's own name and holds the state built for that same entity",
                   got=got, want=(keys[0], state_prefix + ".."), key="own-key")
